@@ -2330,6 +2330,18 @@ func (cx *Ctx) recordListIndexRule(r *Report, rule string) int {
 				if fieldOf == "" {
 					continue
 				}
+				// (stored records are declared in the module's types packages; a keeper-internal
+				// parameter bundle that carries a copy of such a list is not one)
+				var recT types.Type
+				switch fa := v.(type) {
+				case *ssa.FieldAddr:
+					recT = fa.X.Type()
+				case *ssa.Field:
+					recT = fa.X.Type()
+				}
+				if nt := namedOf(recT); nt == nil || !strings.Contains(nt.Obj().Pkg().Path()+"/", "/types/") {
+					continue
+				}
 				mod := moduleOf(funcPkgPath(f))
 				key := mod + "|" + fieldOf + "|" + anchorOf(cx, f)
 				if seen[key] {
